@@ -101,6 +101,7 @@ impl GraphProp {
                     let bits = mix_bits(idx);
                     let mut g0 = graph_from_mask(n, mask, bits, bits >> 20, &[]);
                     g0.no_solo = which == Which::C02;
+                    g0.eof_dep = bits >> 45 & 3 == 0;
                     match which {
                         Which::C02 => {
                             if sample_sets && n == max_n {
@@ -288,10 +289,56 @@ impl Prop for GraphProp {
                 return;
             }
         }
+        if which == Which::C02 && !ctx.quick {
+            // sampled labelled DAGs on 5 files (random order + random lower-triangular edge set),
+            // full request, every completion order up to a cap
+            let n_samples = ctx.share(2_500);
+            let mut first_fail = None;
+            for k in 0..n_samples {
+                let mut r = mix_bits(crate::wctx::mix(ctx.seed, "C02-5", ctx.shard, k));
+                let n = 5usize;
+                let mut perm: Vec<usize> = (0..n).collect();
+                for i in (1..n).rev() {
+                    let j = (r % (i as u64 + 1)) as usize;
+                    r = mix_bits(r);
+                    perm.swap(i, j);
+                }
+                let mut mask = 0u64;
+                for a in 0..n {
+                    for b in 0..a {
+                        if r & 3 == 0 {
+                            mask |= 1 << (perm[a] * n + perm[b]);
+                        }
+                        r = r.rotate_right(2) ^ 0x9e37;
+                    }
+                }
+                let bits = mix_bits(r);
+                let mut g = graph_from_mask(n, mask, bits, 0, &[]);
+                g.no_solo = true;
+                let base = GraphCase {
+                    graph: g.clone(),
+                    inputs: names_of(&g, &(0..n).collect::<Vec<_>>()),
+                    recursive: false,
+                    stale: bits >> 40 & 1 == 1,
+                    threads: full_pool(&g),
+                    sched: Sched::Prefix(vec![]),
+                };
+                dfs(&base, which, 1_500, &mut ctx.stats, &mut first_fail);
+                if first_fail.is_some() {
+                    break;
+                }
+            }
+            ctx.stats.count("sampled_5_file_dags", n_samples);
+            if let Some(f) = first_fail {
+                record_failure(ctx, which, f);
+                return;
+            }
+        }
         let total = match (which, ctx.quick) {
             (Which::C05, true) => 24_000,
             (_, true) => 8_000,
             (Which::C05, false) => 1_000_000,
+            (Which::C03, false) => 900_000,
             (_, false) => 300_000,
         };
         let n = ctx.share(total);
